@@ -14,7 +14,7 @@ pub struct C08;
 
 const BASES: &[&str] = &["int", "uint", "float", "angle", "bool", "bit", "complex", "duration", "stretch"];
 const WIDTHS: &[Option<u32>] = &[None, Some(8), Some(32), Some(64)];
-const FORMS: &[&str] = &["literal", "negative-literal", "variable", "const-variable", "arithmetic", "cast", "call", "measurement", "shadowed-variable", "loop-variable", "def-parameter", "nested-shadowing-variable"];
+const FORMS: &[&str] = &["literal", "negative-literal", "variable", "const-variable", "arithmetic", "cast", "call", "measurement", "shadowed-variable", "loop-variable", "def-parameter", "nested-shadowing-variable", "variable-into-redeclared-name"];
 const CONTEXTS: &[&str] = &["declaration", "const-declaration", "assignment"];
 
 #[derive(Clone, Copy, PartialEq, Debug)]
@@ -114,7 +114,8 @@ fn literal_for(t: Ty) -> Option<(&'static str, Ty)> {
         "bool" => ("true", Ty { base: "bool", width: None }),
         "bit" => match t.width {
             None => ("\"1\"", Ty { base: "bit", width: Some(1) }),
-            Some(8) => ("\"10101010\"", Ty { base: "bit", width: Some(8) }),
+            // (with a digit separator: the register length is the number of bits, not of characters)
+            Some(8) => ("\"1010_1010\"", Ty { base: "bit", width: Some(8) }),
             _ => return None,
         },
         "duration" | "stretch" => ("10ns", Ty { base: "duration", width: None }),
@@ -222,6 +223,15 @@ fn build_spelled(ctx: &str, target: Ty, value: Ty, form: &'static str) -> Option
             let other = if value.base == "bool" { "int[32]" } else { "bool" };
             pre.push_str(&format!("{other} src;\n"));
             wrap = Some((format!("if (true) {{ {} src; if (true) {{ ", text(value)), " } }"));
+            "src".into()
+        }
+        // the declared name is already bound in this scope (a redeclaration, reported as such): the
+        // initializer is still an initializer and its conversion is judged like any other
+        "variable-into-redeclared-name" => {
+            if ctx != "declaration" {
+                return None;
+            }
+            pre.push_str(&format!("{} src;\nbool tgt;\n", text(value)));
             "src".into()
         }
         "const-variable" => {
@@ -409,7 +419,7 @@ fn check_case(c: &Case, ctx: &str, obs: &mut Obs) {
         if let Some(v) = &value {
             check_tree(v, res.symbol_table(), &mut local);
             // a variable used as the value is the variable declared with the value type
-            if matches!(c.form, "variable" | "shadowed-variable" | "nested-shadowing-variable" | "loop-variable" | "def-parameter") {
+            if matches!(c.form, "variable" | "shadowed-variable" | "nested-shadowing-variable" | "loop-variable" | "def-parameter" | "variable-into-redeclared-name") {
                 let mut e = v;
                 while let Expr::Cast(k) = e.expression() {
                     e = k.operand();
